@@ -518,10 +518,11 @@ func (p *pathRun) bitLen(t *smt.Term) value {
 	p.axiom("bitlen-thresholds", c.And(as...))
 	v := c.Fresh("bitlen", smt.BV(64))
 	p.axiom("bitlen-int", c.And(c.Eq(c.BV2Nat(v), bl), c.BVCmp("bvult", v, c.BVC64(64, 1<<40))))
+	p.bitLens = append(p.bitLens, [2]*smt.Term{ax, bl})
 	return symInt{types.Int, v}
 }
 
-var bitLenThresholds = []int{1, 2, 8, 80, 81, 82, 128, 254, 255, 256, 257, 512, 1023, 1024, 1025, 2046, 2047, 2048, 2049, 4096, 4097}
+var bitLenThresholds = []int{1, 2, 8, 80, 81, 82, 128, 254, 255, 256, 257, 512, 1023, 1024, 1025, 2046, 2047, 2048, 2049, 4096, 4097, 5000, 5001}
 
 func (p *pathRun) gcdTerm(a, b *smt.Term) *smt.Term {
 	c := p.ctx
